@@ -2,7 +2,7 @@
    The template definitions come from QPG.templates, regenerated from /repo on every run. *)
 From Coq Require Import List Bool Reals Lia.
 From QP Require Import Cx Apply Gates Rsem.
-From QPM Require Import Transpile.
+From QPM Require Import Transpile Period.
 From QPG Require Import templates fusers.
 From QP Require Import Local.
 Import ListNotations.
@@ -89,6 +89,16 @@ Qed.
 Print Assumptions clifford_candidate_sound.
 
 (* non-vacuity: the theorem's hypotheses are met by a concrete circuit *)
+(* NormalizeRotationTranspiler: shifting the angle of RX / RY / RZ by any integer multiple of 2 pi - in particular
+   reducing it into any cycle range [lower, lower + 2 pi) - changes the gate by a global sign only *)
+Theorem rotation_normalisation_preserves_action : forall k q lower theta, is_rot k = true ->
+  lsem (rsem (mkC k [q] [normalize lower theta])) ≃ lsem (rsem (mkC k [q] [theta])).
+Proof. exact normalize_rotation_preserves_action. Qed.
+Theorem rotation_normalisation_lands_in_the_cycle_range : forall lower theta,
+  (lower <= normalize lower theta < lower + 2 * PI)%R.
+Proof. exact normalized_angle_in_range. Qed.
+Print Assumptions rotation_normalisation_preserves_action.
+
 Example c01_nonvacuous :
   Forall cgate_ok [mkC KCNOT [3; 1]%nat []; mkC KRX [2]%nat [1%R]; mkC KTOFFOLI [0; 4; 2]%nat []].
 Proof. repeat constructor; simpl; intuition (try discriminate; try lia). Qed.
